@@ -57,6 +57,31 @@ fn probe_key(w: &mut Worker, alg: Alg, blob: &[u8], class: &str, detail: &str, a
         }
     }
     let key = |what: &str, site: &str| format!("C11:{what}:{class}:{}:{site}", alg.name());
+    // Key bytes that do not encode a key are refused at once by a correct library.  If they are
+    // taken for a key after all, that key can be one whose trees take hours to build (H20, H25), so
+    // the first call on such bytes runs under a deadline; a call that does not come back is reported
+    // (and its thread abandoned) instead of stalling the whole check into its watchdog.
+    if parsed.is_none() {
+        let (b2, a2) = (blob.to_vec(), aux.clone());
+        let (tx, rx) = std::sync::mpsc::channel();
+        std::thread::Builder::new()
+            .stack_size(crate::common::STACK)
+            .spawn(move || {
+                let mut auxb = a2.map(AuxBuf::new);
+                let rec = libcall::sign_bytes(alg, &b2, b"c11 message", Cb::Refuse, auxb.as_mut());
+                let _ = tx.send(rec.result.kind());
+            })
+            .ok();
+        if rx.recv_timeout(std::time::Duration::from_secs(if crate::common::miri_mode() { 600 } else { 90 })).is_err() {
+            w.report.eval();
+            w.report.violation(
+                &key("no_prompt_rejection", "-"),
+                &format!("sign on key bytes that do not encode a key did not return within the deadline ({class}, {detail}): the bytes are being used as a key"),
+                replay(),
+            );
+            return;
+        }
+    }
     for entry in [SignEntry::Bytes, SignEntry::TrySignAux] {
         for cb in [Cb::Accept, Cb::Refuse] {
             if entry != SignEntry::Bytes && cb == Cb::Refuse {
